@@ -104,27 +104,44 @@ example : whereFinds .string (.str [39]) (.text [39]) = .ok true :=
 
 /-! ## normalised or rejected, never stored unreadable -/
 
-/-- FULL statement — FALSE of the current code: DateTimeCol accepts a `datetime.date`, stores
-    'YYYY-MM-DD' and cannot read it back. -/
+/-- FULL statement — FALSE of the current code: FloatCol accepts the int 2**53+1, SQLite stores the double
+    9007199254740992.0, which is what every fresh read gives: neither equal to the written value nor a
+    documented coercion of it (and `WHERE f = 9007199254740993` does not find the row). -/
 theorem C01_accepted_readable_full_FALSE :
     ¬ (∀ (T : ColT) (x y : PyVal), wf x → toDb T x = .ok y → Readable T x y) := by
   intro h
-  have hv : (⟨2020, 1, 2, 0, 0, 0, 0⟩ : DT).valid = true := by decide
-  obtain ⟨hdb, hrt, hpy⟩ := readBack_dateTime_of_date .dateTime (Or.inl rfl) 2020 1 2 hv
-  rcases h .dateTime (.date 2020 1 2) (.date 2020 1 2) hv hdb with hr | ⟨v, hr, _⟩
-  · rw [hrt] at hr; cases hr
-  · simp [hrt, Res.bind, hpy] at hr
+  have hdb : toDb .float (.int 9007199254740993) = .ok (.int 9007199254740993) := by simp [toDb, floatV]
+  rcases h .float (.int 9007199254740993) _ trivial hdb with hr | ⟨v, hr, hn⟩
+  · rw [roundtrip_float_int] at hr; cases hr
+  · simp [roundtrip_float_int, Res.bind, toPy, floatV] at hr
+    subst hr
+    revert hn; decide
 
-/-- the defect, for EVERY date: accepted, written as the date text, `Invalid` on read -/
-theorem C01_DateTime_given_date_unreadable (T : ColT) (hT : T = .dateTime ∨ T = .timestamp) (y mo d : Nat)
-    (hv : (⟨y, mo, d, 0, 0, 0, 0⟩ : DT).valid = true) : readBack T (.date y mo d) = .invalid := by
-  obtain ⟨hdb, hrt, hpy⟩ := readBack_dateTime_of_date T hT y mo d hv
-  simp [readBack, Res.bind, hdb, hrt, hpy]
+/-- (repaired by fedf30d) a `datetime.date` given to a DateTimeCol / TimestampCol means midnight of that day,
+    and reads back as that datetime — for every calendar-valid date -/
+theorem C01_DateTime_given_date_is_midnight (T : ColT) (hT : T = .dateTime ∨ T = .timestamp) (y mo d : Nat)
+    (hv : (⟨y, mo, d, 0, 0, 0, 0⟩ : DT).valid = true) :
+    readBack T (.date y mo d) = .ok (.datetime y mo d 0 0 0 0) := by
+  have h1 := toDb_dateTime_of_date T hT y mo d
+  have h2 := readBack_dateTime T hT ⟨y, mo, d, 0, 0, 0, 0⟩ hv
+  have h3 : toDb T (dtOf ⟨y, mo, d, 0, 0, 0, 0⟩) = .ok (dtOf ⟨y, mo, d, 0, 0, 0, 0⟩) := by
+    rcases hT with rfl | rfl <;> simp [toDb, dtFromPython, dtOf, passes, Extracted.dtFromPythonPass]
+  simp only [readBack, h3, Res.bind] at h2
+  simp only [readBack, h1, Res.bind]
+  exact h2
 
-/-- PARTIAL: outside the listed (column, value) classes — `knownBad`: date/time given to DateTime/Timestamp,
-    time given to Date, date given to Time, integers beyond int64 given to an integer-like column, integers
-    that are not exact doubles given to Float; `outsideFragment`: uninterpreted codecs — every value a column
-    accepts is rejected by the statement or read back as a value that equals it or is its documented coercion. -/
+/-- (repaired by fedf30d) the other wrong-kind date/time values are rejected, not stored -/
+theorem C01_wrong_kind_rejected (h mi s us y mo d : Nat) :
+    toDb .dateTime (.time h mi s us) = .invalid ∧ toDb .timestamp (.time h mi s us) = .invalid ∧
+    toDb .date (.time h mi s us) = .invalid ∧ toDb .time (.date y mo d) = .invalid := by
+  simp [toDb, dtFromPython, dateToPython, timeToPython, dtToPython, passes, Extracted.dtFromPythonPass,
+    Extracted.dtToPythonPass]
+
+/-- PARTIAL: outside the listed (column, value) classes — `knownBad`: integers beyond int64 given to an
+    integer-like column (Int family, ForeignKey, Decimal, Currency), integers that are not exact doubles given
+    to Float; `outsideFragment`: uninterpreted codecs (float tokens, Decimal tokens in Decimal/Currency columns,
+    text parsed by Date/Time columns) — every value a column accepts is rejected by the statement or read back
+    as a value that equals it or is its documented coercion. -/
 theorem C01_accepted_readable_partial (T : ColT) (x y : PyVal) (hw : wf x)
     (hf : outsideFragment T x = false) (hk : knownBad T x = false) (h : toDb T x = .ok y) :
     Readable T x y := by
@@ -155,22 +172,11 @@ theorem C01_accepted_readable_partial (T : ColT) (x y : PyVal) (hw : wf x)
 /-- non-vacuity: a datetime given to a DateCol is accepted and normalised to its date -/
 example : Readable .date (.datetime 2020 1 2 3 4 5 6) (.date 2020 1 2) :=
   C01_accepted_readable_partial .date _ _ (by show DT.valid _ = true; decide) rfl rfl (by simp [toDb, dateToPython])
-example : knownBad .dateTime (.date 2020 1 2) = true := rfl
+example : knownBad .float (.int 9007199254740993) = true := by decide
 example : knownBad .date (.datetime 2020 1 2 3 4 5 6) = false := rfl
-
-/-- the value the writer caches (`to_python(from_python(x))`) is NOT always what a fresh reader gets:
-    `obj.fkID = <SQLObject instance>` caches the instance, the row holds (and a fresh read gives) its id. -/
-theorem C01_writer_cache_eq_fresh_full_FALSE :
-    ¬ (∀ (T : ColT) (x w v : PyVal), wf x → writerCache T x = .ok w → readBack T x = .ok v → pyEq w v = true) := by
-  intro h
-  have hw : writerCache .fkInt (.sqlobj 1) = .ok (.sqlobj 1) := by
-    simp [writerCache, toDb, toPy, fkFromPython, Res.bind]
-  have hr : readBack .fkInt (.sqlobj 1) = .ok (.int 1) := by
-    have ha : aff .fkInt = .integer := by decide
-    have h64 : int64 1 = true := by decide
-    simp [readBack, toDb, toPy, fkFromPython, Res.bind, roundtrip, lit, evalLit_reprInt, h64, ha, applyAff, fetch]
-  have := h .fkInt (.sqlobj 1) _ _ trivial hw hr
-  simp [pyEq] at this
+example : Readable .dateTime (.date 2020 1 2) (.datetime 2020 1 2 0 0 0 0) :=
+  C01_accepted_readable_partial .dateTime _ _ (by show DT.valid _ = true; decide) rfl rfl
+    (toDb_dateTime_of_date _ (Or.inl rfl) _ _ _)
 
 /-! ## glue for the uninterpreted codecs -/
 
